@@ -363,6 +363,11 @@ func genInput(r *rand.Rand, k int64) input {
 			in.Kind = "small-buffer"
 			in.BufLen = 12 + r.Intn(40)
 			in.Hex = hex.EncodeToString(validRTP(r, seq, r.Intn(3), r.Intn(20)))
+		case 8: // the SSRC of an incoming packet is untrusted input: many distinct streams
+			in.Kind = "valid-many-ssrc"
+			raw := validRTP(r, seq, r.Intn(3), r.Intn(40))
+			binary.BigEndian.PutUint32(raw[8:12], uint32(0x5000+r.Intn(1200))) //nolint:gosec
+			in.Hex = hex.EncodeToString(raw)
 		default:
 			in.Kind = "valid"
 			in.Hex = hex.EncodeToString(validRTP(r, seq, r.Intn(6), []int{0, 1, 100, 1200, 1460}[r.Intn(5)]))
